@@ -79,6 +79,7 @@ func main() {
 	if err != nil {
 		core.Fatalf("%v", err)
 	}
+	core.RemoveAtExit(dir)
 	defer os.RemoveAll(dir)
 	// split the work over child processes (a fatal error in the server must not take the check down)
 	workers := 12
